@@ -357,6 +357,9 @@ def main(tier, rep):
             rep.violation(sig, f"{ev['stack']}.{ev['op']}(keys={c.keys!r:.80}, value={c.value!r:.30}, exp={c.exp!r}, flags={c.flags!r}, "
                                f"cas={c.cas!r}, delta={c.delta!r}, noreply={c.nrarg}) -> {ev['outcome']}, {ev['nsent']} bytes sent, "
                                f"parsed {ev['cmds'][:2]}: {cl}", {"event": ev})
+    # code -> spec on executions the harness did not design: what the repository's own integration tests wrote
+    from drivers import repoit
+    repoit.wire_part(rep, PROP)
     rep.set("evaluations", len(evs))
     rep.set("distinct_nontrivial", len({(e["op"], e["stack"], str(e["keys"]), e["exp"], e["flags"], e["cas"], e["delta"], e["nrarg"],
                                          str(e["data"])) for e in evs if e["nsent"] or e["outcome"] == "illegal"}))
